@@ -103,6 +103,8 @@ BASES = [
     base("http", "youtube.com", segs=["watch"], items=[("v", "abcdefghijk")]),
     base("https", "facebook.com", segs=["some.page", "posts", "1234567"]),
     base("http", "example.com", segs=["go"], items=[("url", "http://target.com/page")]),
+    base("http", "example.com", segs=["app"], frag="/route/X"),                       # routing fragments (kept by normalize_url)
+    base("https", "example.com", frag="!/users/John"),
     base("http", "example.com", user="z\u200bw", segs=["a\u200bb", "\u00ad"], items=[("k", "\ufeffv")], frag="x\u2060y"),      # invisible (format) characters are not control characters
 ]
 
@@ -278,7 +280,7 @@ C16 = {
     "paths": [{"t": cp(t), "s": sp} for t, sp in [("", False), ("/", False), ("/a/b?q=1#f", False), ("/a b", True), ("?q=a b", True), ("#é", False), ("/a\tb", True)]],
     "pads": [cp(""), cp(" "), cp("\t\n")],
     "elements": [cp(x) for x in ["hello", "voir", "(", ")", ",", ".", "…", "«", "»", " ", "\n", "[", "](", "!", "http://lemonde.fr/a", "https://www.example.com/path?q=1)",
-                                  "lemonde.fr", "www.example.com/x", "http://a.com/](", "foo", "[http://a.com](http://b.com)", "HTTP://C.COM.", "ftp://d.org/x,", "[http://x](y@a.com)", "@a.com"]],
+                                  "lemonde.fr", "www.example.com/x", "http://a.com/](", "foo", "[http://a.com](http://b.com)", "HTTP://C.COM.", "ftp://d.org/x,", "[http://x](y@a.com)", "@a.com", "http://a.b", "[http://a.com/](http://a.com/)"]],
 }
 
 
